@@ -48,7 +48,7 @@ func (repl) Describe() core.EngineInfo {
 		Real:       []string{"goatlang Eval (tokenize, parse, loadImports, compile against persistent globals with fresh locals, run), WithEvalImports, Yield"},
 		Stubs:      []string{"readline / REPL loop of cli -> message schedule", "time.Sleep -> Yield + simulated clock"},
 		Assumes:    []string{"generated programs do not fail at run time (error positions legitimately differ between the strategies)", "no fault kind applies to this property: the simulator contributes the cut and the delivery site only"},
-		ProbesWant: []string{"messages_at_yield", "messages_top", "all_cuts_enumerated", "single_statement_messages", "ref_ok"},
+		ProbesWant: []string{"messages_at_yield", "messages_top", "all_cuts_enumerated", "both_failed_at_run_time", "single_statement_messages", "ref_ok"},
 	}
 }
 
@@ -84,6 +84,12 @@ func (e repl) RunUnit(seed uint64, tier string, unit int, exec func(plan any) *c
 		n = 21 + r.Intn(40) // long programs, dense in block scopes: local slot numbers reach the dozens
 	}
 	stmts := GenStatements(r.Fork(), n, true)
+	if len(stmts) > 4 && r.Chance(1, 10) {
+		// one statement that fails at run time, somewhere after the first few
+		at := 2 + r.Intn(len(stmts)-3)
+		bad := core.Pick(r, []string{"panic(\"boom\")", "println(len([]int{1, 2}[5:]))", "println(7 / len(\"\"))", "var nmF map[string]int; nmF[\"a\"] = 1", "var npF *struct{ A int }; println(npF.A)", "println([]int{1}[3])"})
+		stmts = append(stmts[:at:at], append([]string{bad}, stmts[at:]...)...)
+	}
 	names := stmtNames(stmts)
 	total := len(stmts)
 	optOff := r.Chance(1, 4)
@@ -241,6 +247,9 @@ func (repl) Execute(plan any, keep bool) *core.Result {
 	}
 	var failed error
 	deliver := func(i int) {
+		if failed != nil {
+			return // a whole program stops at its first failing statement; so does the session
+		}
 		rets, err := inc.h.Eval("stdin", msgs[i], goatlang.WithEvalImports(imports))
 		if err != nil && failed == nil {
 			failed = fmt.Errorf("message %d %q: %v", i+1, msgs[i], err)
@@ -306,6 +315,24 @@ func (repl) Execute(plan any, keep bool) *core.Result {
 		res.Abstract = "ref-failed"
 		if failed == nil && !core.IsBudget(ref.err) {
 			res.Fail("C18", "C18/out", "whole-program-failed", "fed in %d messages the program evaluates, but as one Eval call it fails: %v", len(msgs), firstLine(fmt.Sprint(ref.err)))
+		}
+		if failed != nil && len(ref.h.Escapes) == 0 && strings.HasPrefix(fmt.Sprint(ref.err), "error in run: ") && strings.Contains(failed.Error(), ": error in run: ") {
+			// both strategies stopped at a statement that fails at run time: what ran before it ran in both
+			res.Counters.Inc("both_failed_at_run_time")
+			res.Abstract += "-run"
+			if a, b := inc.h.Stdout.String(), ref.h.Stdout.String(); a != b {
+				res.Fail("C18", "C18/out", "stdout-before-failure", "both strategies stop at a run-time failure, but what was printed before it differs: incremental %q, whole %q", a, b)
+			}
+			if a, b := strings.Join(inc.obs, "|"), strings.Join(ref.obs, "|"); a != b {
+				res.Fail("C18", "C18/out", "observations-before-failure", "both strategies stop at a run-time failure, but the native observations before it differ: incremental %q, whole %q", a, b)
+			}
+			ga, gb := inc.globals(p.Names), ref.globals(p.Names)
+			for i := range ga {
+				if ga[i] != gb[i] {
+					res.Fail("C18", "C18/globals", "value-before-failure", "both strategies stop at a run-time failure, but a global differs: incremental %s, whole %s", ga[i], gb[i])
+					break
+				}
+			}
 		}
 		return finish()
 	}
